@@ -418,6 +418,10 @@ def _any_all(is_all):
             if is_all:
                 return ok(st, Val(V.Bool, z3.ForAll([i], z3.Implies(rng, e))))
             return ok(st, Val(V.Bool, z3.Exists([i], z3.And(rng, e))))
+        if not sx.spec_mode:
+            # an iterable the executor does not interpret (opaque iterator, generator over one): some answer (contract `true`)
+            sx.uncontracted.append("%s() over %s (line %s)" % ("all" if is_all else "any", kind, getattr(node, "lineno", "?")))
+            return ok(st, Val(V.Bool, z3.Bool(fresh_name("unknown_anyall"))))
         raise Unsupported("any/all over %s" % kind, node)
 
     return f
